@@ -116,6 +116,10 @@ def gen_plan(rng, cfg, tier):
     extra.append(['file', rng.choice(['whitelist.conf', 'blacklist.conf']), gen_list(rng)])
     extra.append(['advance', rng.choice([1.0, 5.0, 9.999, 10.0, 10.0, 25.0])])
   plan = {'prop': PROP, 'clients': clients, 'steps': ig.gen_steps(rng, clients, extra)}
+  if rng.random() < 0.3:
+    # the list file is being replaced (unlink + re-create) exactly while it is re-read
+    plan['fs_faults'] = [[rng.randint(1, 4), rng.choice(['whitelist', 'blacklist'])]
+                         for _ in range(rng.randint(1, 2))]
   return plan
 
 
